@@ -193,6 +193,11 @@ func main() {
 			fmt.Fprintln(os.Stderr, "load:", err)
 			os.Exit(2)
 		}
+		if forceCanon { // debug dumps of the canonical view
+			if cr, err := canonicalise(LoadOptions{Repo: *repo}); err == nil && cr.Prog != nil {
+				p = cr.Prog
+			}
+		}
 		doDump(p, *dump)
 		return
 	}
